@@ -18,7 +18,8 @@ def cfgOf? (j : Json) : Option Cfg := do
   let backoff ← jInt? (← jField? j "backoff")
   let errors ← jStr? (← jField? j "errors") >>= errorsOf?
   let retries ← jOpt? jNat? (← jField? j "retries")
-  some { interval, sharp, idle, initialDelay, backoff, errors, retries }
+  let timeout ← jOpt? jInt? (← jField? j "timeout")
+  some { interval, sharp, idle, initialDelay, backoff, errors, retries, timeout }
 
 def resultOf? (j : Json) : Option Result := do
   match ← jArr? j with
@@ -29,18 +30,20 @@ def resultOf? (j : Json) : Option Result := do
   | _ => none
 
 def iterOf? (j : Json) : Option Iter := do
+  let top ← jInt? (← jField? j "top")
   let start ← jInt? (← jField? j "start")
   let ended ← jInt? (← jField? j "ended")
   let patched ← jInt? (← jField? j "patched")
   let res ← jOpt? resultOf? (← jField? j "res")
-  some { start, ended, patched, res }
+  some { top, start, ended, patched, res }
 
 def stateOf? (j : Json) : Option HState := do
+  let started ← jInt? (← jField? j "started")
   let retries ← jNat? (← jField? j "retries")
   let success ← jBool? (← jField? j "success")
   let failure ← jBool? (← jField? j "failure")
   let delayed ← jOpt? jInt? (← jField? j "delayed")
-  some { retries, success, failure, delayed }
+  some { started, retries, success, failure, delayed }
 
 def evOf? (j : Json) : Option Ev := do
   match ← jArr? j with
@@ -61,7 +64,7 @@ def pviewOf (obs : List (Int × Int)) : PView := fun t => (obs.find? (·.1 == t)
 def jI (i : Int) : Json := .num (JsonNumber.fromInt i)
 
 def resJson : Res → Json
-  | .start t => .arr #[.str "start", jI t]
+  | .start top t => .arr #[.str "start", jI top, jI t]
   | .ended => .arr #[.str "ended"]
   | .noObs t => .arr #[.str "noobs", jI t]
   | .diverged => .arr #[.str "diverged"]
@@ -72,7 +75,7 @@ def wakeJson : Wake → Json
   | .stop => .arr #[.str "stop"]
 
 def stateJson (h : HState) : Json :=
-  Json.mkObj [("retries", .num (JsonNumber.fromNat h.retries)), ("success", .bool h.success), ("failure", .bool h.failure),
+  Json.mkObj [("started", jI h.started), ("retries", .num (JsonNumber.fromNat h.retries)), ("success", .bool h.success), ("failure", .bool h.failure),
     ("delayed", match h.delayed with | some d => jI d | none => .null)]
 
 def handle : DrvHandler := fun op args =>
@@ -86,13 +89,15 @@ def handle : DrvHandler := fun op args =>
       let obs ← obsOf? oj
       let fuel ← jNat? fj
       let h' := step cfg h it
+      let res := nextStartN cfg (pviewOf obs) fuel h' it
       some (ok (Json.mkObj [
-        ("invokes", .bool (h.atTop.awakened it.start)),
-        ("attempt", .num (JsonNumber.fromNat (attemptOf h))),
+        ("invokes", .bool ((h.atTop it.top).awakened it.start && !precheckFails cfg (h.atTop it.top) it.start)),
+        ("expires", .bool ((h.atTop it.top).awakened it.start && precheckFails cfg (h.atTop it.top) it.start)),
+        ("attempt", .num (JsonNumber.fromNat (attemptOf h it))),
         ("state", stateJson h'),
-        ("top", stateJson h'.atTop),
+        ("top", match res with | .start top _ => stateJson (h'.atTop top) | _ => .null),
         ("wake", wakeJson (wake cfg h' it)),
-        ("res", resJson (nextStartN cfg (pviewOf obs) fuel h' it))]))
+        ("res", resJson res)]))
   | "C10.first", [cj, sj, oj, fj] => do
       let cfg ← cfgOf? cj
       let spawn ← jInt? sj
@@ -101,7 +106,7 @@ def handle : DrvHandler := fun op args =>
       some (ok (Json.mkObj [
         ("res", resJson (firstStartN cfg (pviewOf obs) fuel spawn)),
         ("wake", wakeJson (.at (initialWake cfg spawn))),
-        ("top", stateJson HState.fresh.atTop)]))
+        ("top", stateJson (initState cfg spawn))]))
   | "C10.reset", [lh, seen, e] => do
       let lh ← jOpt? jNat? lh
       let seen ← jOpt? jNat? seen
